@@ -46,6 +46,13 @@ def chain_spec(draw):
     n = draw(st.integers(1, 5))
     stages = [draw(st.sampled_from(KINDS)) for _ in range(n)]
     links = [draw(st.sampled_from(["direct", "helper", "condition", "condition_prio"])) for _ in range(n - 1)]
+    # a prioritised condition on each side of a Connect yields merged transactions with contradictory priorities
+    # (rightly rejected as cyclic): next to a Connect only unprioritised conditions are generated
+    for i, k in enumerate(stages):
+        if k == "connect":
+            for j in (i - 1, i):
+                if 0 <= j < len(links) and links[j] == "condition_prio":
+                    links[j] = "condition"
     extras = []
     for i, k in enumerate(stages):
         if k in ("forwarder", "pipe", "basicfifo") and draw(st.integers(0, 2)) == 0:
@@ -62,6 +69,9 @@ def chain_spec(draw):
             shared.append([i, i + 1])
         else:
             shared.append(sorted(draw(st.sets(st.integers(0, ntr - 1), min_size=2, max_size=min(ntr, 3)))))
+    # the writer and the reader of a Connect run simultaneously: a shared exclusive callee is (rightly) rejected as
+    # unsatisfiable simultaneity, so such pairs never share a resource
+    shared = [u for u in shared if not any(k == "connect" and i in u and i + 1 in u for i, k in enumerate(stages))]
     return {"gen": "chain", "stages": stages, "links": links, "extras": extras, "width": draw(st.integers(1, 4)),
             "shared": shared}
 
@@ -142,10 +152,15 @@ class Chain(Elaboratable):
                 with Transaction(name=f"link{i}").body(m):
                     v = a.read(m).d
                     use_resources()
+                    # the branch conditions are plain inputs (local state): a condition computed from data that a
+                    # Connect / Forwarder forwards combinationally would make readiness depend on the run signal of
+                    # the writer, which the documented rules do not allow
+                    sel = Signal(name=f"link_sel{i}")
+                    self.ports.append(sel)
                     with condition(m, nonblocking=False, priority=(link == "condition_prio")) as branch:
-                        with branch(v[0]):
+                        with branch(sel):
                             b.write(m, d=v)
-                        with branch(~v[0] if link == "condition" else C(1)):
+                        with branch(~sel if link == "condition" else C(1)):
                             b.write(m, d=v + 1)
         with Transaction(name="sink").body(m, ready=snk_rdy):
             m.d.comb += snk_out.eq(st_[-1].read(m).d)
